@@ -79,6 +79,25 @@ def generate(repo):
                     k = funcs[m.group(1)]
                     arg = re.sub(r"\s+", "", args[k]) if k < len(args) else "?"
                     dels.append((base, name, m.group(1), arg, owner_guard(body, m.start())))
+    # entry points: every call of an owner-taking function from a function that has no owner parameter of its own (the
+    # transports' close / cleanup operations, xcm.c, error ladders): the flag is a literal there
+    entries = []
+    for rel in srcs:
+        src = es.strip_comments(open(os.path.join(repo, rel), errors="replace").read())
+        base = os.path.basename(rel)
+        local_defs = set(n for n, _, _, _ in es.functions(src))
+        local_owner = dict((n, i) for n, i, _ in dict(per_file).get(base, []))
+        for fname, b0, b1, body in es.functions(src):
+            if fname in local_owner:
+                continue
+            for m in re.finditer(r"(?<![\w.>])(%s)\s*\(" % "|".join(sorted(funcs)), body):
+                callee = m.group(1)
+                if callee in local_defs and callee not in local_owner:
+                    continue           # a file-local function of the same name without an owner parameter
+                args = es.call_args(body, m.end() - 1)
+                k = local_owner.get(callee, funcs[callee])
+                arg = re.sub(r"\s+", "", args[k]) if k < len(args) else "?"
+                entries.append((base, fname, m.group(1), arg))
     b = lambda x: "true" if x else "false"
     L = ["/- GENERATED by extract/ext_owner.py from /repo - do not edit. -/", "namespace XcmModel.Generated", "",
          "structure OwnerSite where", "  file : String", "  func : String", "  callee : String", "  guarded : Bool", "  deriving DecidableEq, Repr", "",
@@ -89,6 +108,9 @@ def generate(repo):
     L.append(",\n".join("  { file := %s, func := %s, callee := %s, guarded := %s }" % (es.lean_str(a), es.lean_str(f), es.lean_str(c), b(g)) for a, f, c, g in sites))
     L += ["]", "", "def ownerDelegations : List OwnerDelegation := ["]
     L.append(",\n".join("  { file := %s, func := %s, callee := %s, arg := %s, guarded := %s }" % (es.lean_str(a), es.lean_str(f), es.lean_str(c), es.lean_str(x), b(g)) for a, f, c, x, g in dels))
+    L += ["]", "", "structure OwnerEntry where", "  file : String", "  func : String", "  callee : String", "  arg : String", "  isCleanup : Bool",
+          "  deriving DecidableEq, Repr", "", "def ownerEntries : List OwnerEntry := ["]
+    L.append(",\n".join("  { file := %s, func := %s, callee := %s, arg := %s, isCleanup := %s }" % (es.lean_str(a), es.lean_str(f), es.lean_str(c), es.lean_str(x), b("cleanup" in f)) for a, f, c, x in entries))
     L += ["]", "", "end XcmModel.Generated", ""]
     return [("Owner", "\n".join(L))]
 
